@@ -189,8 +189,27 @@ func (m *model) jsBody(i int) comp {
 	case f.Via == "promise":
 		m.jobs = append(m.jobs, i) // the rest of the chain runs later, as a reaction job
 		c = comp{kind: "ok"}
+	case IsCloseVia(f.Via):
+		// ECMAScript IteratorClose(iterator, throw completion): return() is called, whatever it returns or throws is
+		// ignored and the original exception continues — except that an interrupt / stack overflow (and a foreign Go
+		// panic) raised inside return() is not an exception a script could have thrown: it goes on to the host.
+		line := m.ln.Call[i]
+		d := 100 + i
+		if f.Via == "closeforof" || f.Via == "closefrom" {
+			m.newPayload(d, "num", line) // this frame's own throw
+		} else {
+			m.pay[d] = &Payload{ID: d, Kind: "engine", Object: true, ErrObj: true, Line: line, Lazy: true, Ctor: "TypeError"} // raised by the built-in
+		}
+		m.emit(Event{K: "ir", F: i, P: -1})
+		c = m.eval(i + 1)
+		if c.kind == "ok" || c.kind == "throw" {
+			c = comp{kind: "throw", p: d, line: line}
+		}
 	default:
 		c = m.eval(i + 1)
+		if f.Via == "frommap" && c.kind == "throw" {
+			m.emit(Event{K: "ir", F: i, P: -1}) // the built-in closes the iterator when its step throws
+		}
 		if f.Via == "forofbody" && c.kind == "throw" {
 			m.emit(Event{K: "ir", F: i, P: -1}) // IteratorClose on a throw completion of the loop body
 		}
